@@ -820,7 +820,7 @@ def r14_point_box(repo: Repo, rep):
 
 def r16_layout_of_every_reader(repo: Repo, rep):
     R = rep.rule("R-C18-16", "every reader of a bounding box addresses it as [min_1, max_1, min_2, max_2, ..]: entries by constants, 2*i / 2*i + 1, strides ::2 / 1::2 or pairs 2*i : 2*i + 2 - "
-                 "never as two halves [:k] / [k:] (the layout [mins.., maxs..])", floor=20,
+                 "never as two halves [:k] / [k:] (the layout [mins.., maxs..])", floor=12,
                  why="a reader that splits the box into a lower and an upper corner compares x with (x_min, x_max) and y with (y_min, y_max): pre-filters, strata and plots built on it lie outside the domain")
 
     def even_form(e):
@@ -838,6 +838,11 @@ def r16_layout_of_every_reader(repo: Repo, rep):
         for n in ast.walk(fi.node):
             if isinstance(n, ast.Assign) and isinstance(n.value, ast.Call) and isinstance(n.value.func, ast.Attribute) and n.value.func.attr == "bounding_box":
                 names |= {t.id for t in n.targets if isinstance(t, ast.Name)}
+        for _ in range(3):  # the box shifted / scaled as a whole is still a box: `centred = bounds - pivot`
+            for n in ast.walk(fi.node):
+                if isinstance(n, ast.Assign) and isinstance(n.value, ast.BinOp) and isinstance(n.value.op, (ast.Add, ast.Sub, ast.Mult, ast.Div)) \
+                        and any(isinstance(x, ast.Name) and x.id in names for x in (n.value.left, n.value.right)):
+                    names |= {t.id for t in n.targets if isinstance(t, ast.Name)}
         for n in ast.walk(fi.node):
             if not isinstance(n, ast.Subscript):
                 continue
